@@ -1041,9 +1041,47 @@ def tab_getitem(ex, st, o, t, i, node):
     raise Unsupported("DataFrame[%r]" % (iv,))
 
 
+def opaque_elems(ex, ov):
+    """The elements of an opaque function result name(arg): one function symbol per (name, argument's element and length
+    terms), so that syntactically equal arguments give literally the same elements."""
+    k = fresh(I, "ck")
+    with binding(k):
+        e = ov.arg.at(k)
+    ez = to_z3(e.val) if isinstance(e, NF) else to_z3(e)
+    if _outer_binders([ez, to_z3(ov.arg.n)]):
+        raise Unsupported("opaque function %s of a vector defined under a quantifier" % ov.name)
+    ck = z3.Const("canon!k", I)
+    key = (ov.name, z3.substitute(ez, (k, ck)).sexpr(),
+           z3.substitute(to_z3(e.null), (k, ck)).sexpr() if isinstance(e, NF) and is_z3(e.null) else "", to_z3(ov.arg.n).sexpr())
+    cache = ex.__dict__.setdefault("_opaque_canon", {})
+    f = cache.get(key)
+    if f is None:
+        f = z3.Function(fresh_name(ov.name.lower() + "_el"), I, R)
+        # congruence with the results of the same function taken before: arguments that agree element by element give
+        # results that agree element by element (for arguments that are not literally the same term)
+        nz = to_z3(ov.arg.n)
+        for (f2, arg2) in [x for x in cache.get(("__all__", ov.name), [])][-6:]:
+            a, b = fresh(I, "a"), fresh(I, "b")
+            try:
+                with binding(a, b):
+                    same = z3.And(to_z3(arg2.n) == nz,
+                                  z3.ForAll([a], z3.Implies(z3.And(0 <= a, a < nz), z3eq(ov.arg.at(a), arg2.at(a)))))
+                    global_fact(ex, z3.Implies(same, z3.ForAll([b], z3.Implies(z3.And(0 <= b, b < nz), f(b) == f2(b)))))
+            except Unsupported:
+                continue
+        cache.setdefault(("__all__", ov.name), []).append((f, ov.arg))
+        cache[key] = f
+    used(ex, "elements of the opaque function result %s(v) are an uninterpreted function of the position (one per v)" % ov.name)
+    return Vec(ov.arg.n, lambda j, f=f: f(to_z3(j)), idx=ov.arg.idx, kind="series" if ov.arg.idx is not None else "array")
+
+
 def as_column(ex, st, t, val, node):
     """Value assigned to a DataFrame column -> element closure (after alignment checks)."""
     v = st.get(val)
+    if isinstance(v, OpaqueVecApp):
+        v = opaque_elems(ex, v)
+        if v.idx is not None and v.idx is not t.idx and not (isinstance(v.idx, RangeIdx) and isinstance(t.idx, RangeIdx)):
+            v = v.with_(idx=None, kind="array")       # a plain array result: positional
     if isinstance(v, Vec):
         if v.kind == "series" and v.idx is not None and v.idx is not t.idx and \
                 not (isinstance(v.idx, RangeIdx) and isinstance(t.idx, RangeIdx)):
